@@ -1,7 +1,7 @@
 (* C06 - pinned statements (cardinality estimator of SetSketch).  card_of_sum is the expression
    found, identically, in get_cardinal_stats and in the parallel get_cardinal_estimate. *)
 From Coq Require Import Reals List.
-From PMH Require Import Gen.SetSketchFormulas Proofs.SetFormulas Gen.SetSketchLaw Proofs.SetLaw Proofs.FloatSum.
+From PMH Require Import Gen.SetSketchFormulas Proofs.SetFormulas Gen.SetSketchLaw Proofs.SetLaw Proofs.FloatSum Gen.SetFormulasSrc Proofs.SetFormulasSrc.
 Import ListNotations.
 Open Scope R_scope.
 
@@ -49,6 +49,20 @@ Theorem C06_estimates_in_inverse_ratio_of_sums : forall b a m S1 S2, 1 < b -> 0 
   card_of_sum b a m S1 * S1 = card_of_sum b a m S2 * S2.
 Proof. exact card_inverse_ratio. Qed.
 
+(* the estimator and its advertised spread as the source text of get_cardinal_stats and of the parallel get_cardinal_estimate
+   writes them (Gen/SetFormulasSrc.v, read off the Rust expressions on every run, `let` chains inlined) are the formulas the
+   theorems above are stated on; in particular the two functions compute the same function of the registers' sum *)
+Theorem C06_source_estimators_are_the_proved_estimator : forall b a m S, 1 < b -> 0 < a -> 0 < S ->
+  card_stats_src b a m S = card_of_sum b a m S /\ card_estimate_src b a m S = card_of_sum b a m S /\
+  card_stats_src b a m S = card_estimate_src b a m S.
+Proof.
+  intros b a m S Hb Ha HS.
+  exact (conj (card_stats_src_ok b a m S Hb Ha HS) (conj (card_estimate_src_ok b a m S Hb Ha HS) (card_sources_agree b a m S Hb Ha HS))).
+Qed.
+
+Theorem C06_source_spread_is_the_advertised_spread : forall b m, 1 < b -> 0 < m -> card_rsd_src b m = card_rel_std_dev b m.
+Proof. exact card_rsd_src_ok. Qed.
+
 Print Assumptions C06_card_monotone.
 Print Assumptions C06_sequential_and_any_parallel_sum_agree.
 Print Assumptions C06_any_sum_tree_is_accurate.
@@ -58,3 +72,5 @@ Print Assumptions C06_sum_antitone.
 Print Assumptions C06_increment_is_renyi_spacing.
 Print Assumptions C06_register_threshold.
 Print Assumptions C06_register_antitone.
+Print Assumptions C06_source_estimators_are_the_proved_estimator.
+Print Assumptions C06_source_spread_is_the_advertised_spread.
